@@ -5,12 +5,13 @@ in-memory sqlite3 table through a recording connection wrapper; the returned row
 Python evaluator of SQL three-valued logic (models/sql3vl.py) and the recorded (sql, params) with the
 operands of the tree.
 
-Table t(id, s TEXT, n INT, _d INT): 10 rows covering NULL, '', quotes, wildcard characters, an SQL
-fragment, case variants and small ints (ROWS below); "_d" is a column whose name starts with an underscore
+Table t(id, s TEXT, n INT, _d INT): 15 rows covering NULL, '', quotes, wildcard characters, an SQL
+fragment, text that spells an operator ("IS NULL", "is not null", "NULL", "= 1", "IN (1)"), case variants and
+small ints (ROWS below); the same strings are operand values in every spelling (3-tuple, 2-tuple, keyword, _or); "_d" is a column whose name starts with an underscore
 like the special keywords _order_by / _as_scalars; columns are also addressed as "t.s", "t.n".
 
 Families (all members visited):
-  single  : every atom (column, operator, operand) of the full alphabet (130 atoms: 12 operators, NULL,
+  single  : every atom (column, operator, operand) of the full alphabet (164 atoms: 12 operators, NULL,
             '', quote, wildcard, fragment, [], [v], (v, w), {v, w}, [v, None], [None] ...)
             x spelling {3-tuple, list, condition object, 2-tuple, keyword}
             x method {list, all, one, one_or_none, SqlMethodT.list/one/one_or_none}
@@ -38,11 +39,11 @@ ID = "C15"
 TITLE = "SQL filters select exactly the intended rows; values are always bound"
 TECHNIQUE = "bounded exhaustive enumeration of filter trees on real sqlite3 against a three-valued-logic evaluator"
 DESIGN_REF = "§2 C15"
-LEVEL_TEXT = ("Every filter tree with at most 2 (quick) / 3 (thorough) leaves over a 130-atom alphabet, and every "
+LEVEL_TEXT = ("Every filter tree with at most 2 (quick) / 3 (thorough) leaves over a 164-atom alphabet, and every "
               "decorated tree (OR groups, keywords, ignored None, static conditions, spellings, methods, orders, "
               "both placeholder styles) over 16 representative atoms, is executed by the real SqlMethod on a real "
               "sqlite3 table; rows are compared with an independent 3VL evaluator, parameters with the operands.")
-LEVEL_NOTE = ("Small scope: one fixed 10-row table, trees of more than 3 leaves and OR groups of more than 3 "
+LEVEL_NOTE = ("Small scope: one fixed 15-row table, trees of more than 3 leaves and OR groups of more than 3 "
               "operands are not explored; GROUP BY and joins are not. The '%s' placeholder style is exercised "
               "through a wrapper that translates it for sqlite. Trusted: sqlite3 itself (3.40), models/sql3vl.py.")
 RULE = ("case = one call of one method with one argument list (tree, spelling, keywords, order, placeholder "
@@ -60,7 +61,7 @@ REQUIRED_FEATURES = [
     "op:=", "op:!=", "op:IN", "op:NOT IN", "op:IS NULL", "op:IS NOT NULL", "op:LIKE", "op:NOT LIKE",
     "op:<", "op:>", "op:<=", "op:>=",
     "val:null", "val:empty-string", "val:quote", "val:wildcard", "val:sql-fragment", "val:empty-list",
-    "val:singleton-list", "val:tuple", "val:set", "val:list-with-null",
+    "val:singleton-list", "val:tuple", "val:set", "val:list-with-null", "val:operator-text",
     "form:3-tuple", "form:2-tuple", "form:list", "form:object", "form:keyword", "form:or-empty", "form:or-1",
     "form:or-2", "form:or-keyword", "form:none-arg", "form:static", "form:lower-case-op",
     "form:keyword-underscore-column", "col:qualified", "col:underscore", "method:list+scalars", "seq:two-calls",
@@ -82,6 +83,12 @@ ROWS = [            # (id, s, n, _d)
     (8, "axb", 8, 0),
     (9, "500", 0, 1),
     (10, None, 7, None),
+    # text that looks like SQL for an operator: it is data like any other string
+    (11, "IS NULL", 1, 0),
+    (12, "is not null", None, 1),
+    (13, "NULL", 2, None),
+    (14, "= 1", 0, 0),
+    (15, "IN (1)", 7, 1),
 ]
 NROWS = len(ROWS)
 FULL = (1 << NROWS) - 1
@@ -103,9 +110,13 @@ def _static_masks(k):
 
 
 # ------------------------------------------------------------------------------------------ alphabet
-S_SCAL = [None, "", "o'k", "50%", "a_b", "A_B", "x; DROP TABLE t", "zz"]
+S_SCAL = [None, "", "o'k", "50%", "a_b", "A_B", "x; DROP TABLE t", "zz",
+          "IS NULL", "is not null", "NULL", "= 1", "IN (1)", "IS NOT NULL"]
+# operands that may legitimately coincide with keyword text of the statement (never searched for in the SQL text;
+# the parameter comparison covers them)
+SQL_WORDS = {"IS NULL", "IS NOT NULL", "NULL", "IN", "NOT IN", "LIKE", "NOT LIKE", "OR", "AND"}
 S_LISTS = [["l", []], ["l", ["o'k"]], ["t", ["a_b", "50%"]], ["l", ["x; DROP TABLE t", None]], ["l", [None]],
-           ["t", [None]], ["t", ["zz", "a_b", "a_b"]]]
+           ["t", [None]], ["t", ["zz", "a_b", "a_b"]], ["l", ["IS NULL", "NULL"]]]
 S_SETS = [["s", ["A_B", ""]], ["s", [None]], ["s", ["50%"]]]
 S_LIKE = ["", "50%", "a_b", "A_B", "%", "_", "%'%", "o'k", "%t"]
 S_CMP = [None, "", "a_b", "b", "50%"]
@@ -166,7 +177,13 @@ def _val_feats(spec):
                 f.append("val:wildcard")
             if "DROP" in x:
                 f.append("val:sql-fragment")
+            if x.upper() in ("IS NULL", "IS NOT NULL", "NULL") or x in ("= 1", "IN (1)"):
+                f.append("val:operator-text")
     return f
+
+
+def _text_checkable(x):
+    return isinstance(x, str) and len(x) >= 2 and x.upper() not in SQL_WORDS
 
 
 class Atom:
@@ -178,7 +195,7 @@ class Atom:
         self.masks = L.atom_masks(ROWS, COLIDX[col], op, spec)
         self.bound = L.bound_values(op, spec)
         self.feats = tuple(["op:" + op.upper()] + _val_feats(spec))
-        self.strs = tuple(x for x in self.bound if isinstance(x, str) and len(x) >= 2)
+        self.strs = tuple(x for x in self.bound if _text_checkable(x))
 
     def item(self, form="a3"):
         if form == "a2":
@@ -207,6 +224,7 @@ REPS = [_find(*t) for t in [
 KW_SETS = [{"s": ["v", "o'k"]}, {"n": ["v", 1]}, {"s": ["v", None]}, {"n": ["l", [0, 2]]},
            {"s": ["v", "a_b"], "n": ["v", -1]}, {"n": ["v", None], "s": ["v", "A_B"]},
            {"s": ["l", []]}, {"s": ["v", "x; DROP TABLE t"], "n": ["l", [1, None]]},
+           {"s": ["v", "IS NULL"]}, {"s": ["v", "is not null"], "n": ["v", None]}, {"s": ["v", "NULL"], "_d": ["v", None]},
            {"_d": ["v", 0]}, {"_d": ["v", None]}, {"_d": ["l", [1]], "s": ["v", "a_b"]},
            {"_d": ["v", 1], "n": ["v", 0], "s": ["v", "500"]}]
 
@@ -221,7 +239,10 @@ def _item_alphabet(full):
         items += [["a3", "n", "in", ["s", [-1, 7]]], ["a3", "s", "like", ["v", "50%"]],
                   ["a3", "s", "is null", ["v", None]], ["a3", "s", "Not In", ["l", []]],
                   ["a3", "_d", "=", ["v", 0]], ["a2", "_d", ["v", None]], ["a3", "_d", "!=", ["l", [0, None]]],
-                  ["a3", "t.s", "LIKE", ["v", "%'%"]], ["a2", "t.n", ["v", 1]], ["a3", "t._d", ">=", ["v", 1]]]
+                  ["a3", "t.s", "LIKE", ["v", "%'%"]], ["a2", "t.n", ["v", 1]], ["a3", "t._d", ">=", ["v", 1]],
+                  ["a2", "s", ["v", "IS NULL"]], ["a2", "s", ["v", "is not null"]], ["a3", "s", "=", ["v", "IS NOT NULL"]],
+                  ["a2", "t.s", ["v", "NULL"]], ["al", "s", "!=", ["v", "IS NULL"]], ["a2", "s", ["v", "= 1"]],
+                  ["a2", "s", ["l", ["IS NULL", "NULL"]]]]
     items.append(["or", [], {}])
     if full:
         items += [["or", [a.item("a3")], {}] for a in REPS]
@@ -230,12 +251,16 @@ def _item_alphabet(full):
                   ["or", [], {"n": ["v", None]}], ["or", [], {"n": ["l", [1, None]], "s": ["v", "50%"]}],
                   ["or", [REPS[8].item("a3")], {"n": ["v", 0]}], ["or", [REPS[1].item("a2")], {"s": ["v", "zz"]}],
                   ["or", [REPS[10].item("ao")], {"s": ["l", ["o'k"]]}],
-                  ["or", [], {"_d": ["v", 0], "n": ["v", 7]}], ["or", [["a2", "t.s", ["v", "axb"]]], {"_d": ["v", None]}]]
+                  ["or", [], {"_d": ["v", 0], "n": ["v", 7]}], ["or", [["a2", "t.s", ["v", "axb"]]], {"_d": ["v", None]}],
+                  ["or", [["a2", "s", ["v", "IS NULL"]]], {}], ["or", [], {"s": ["v", "is not null"]}],
+                  ["or", [["a2", "s", ["v", "NULL"]], ["a2", "n", ["v", None]]], {"s": ["v", "IN (1)"]}],
+                  ["or", [["a3", "s", "IS NULL", ["v", None]]], {"s": ["v", "IS NULL"]}]]
     else:
         pairs = [(0, 10), (1, 13), (3, 8), (4, 6), (5, 2), (11, 14)]
         items += [["or", [REPS[i].item("a3"), REPS[j].item("a3")], {}] for i, j in pairs]
         items += [["or", [], {"s": ["v", "a_b"], "n": ["v", 7]}], ["or", [REPS[8].item("a3")], {"n": ["v", 0]}],
-                  ["or", [], {"_d": ["v", 0], "n": ["v", 7]}], ["a3", "_d", "=", ["v", 0]]]
+                  ["or", [], {"_d": ["v", 0], "n": ["v", 7]}], ["a3", "_d", "=", ["v", 0]],
+                  ["a2", "s", ["v", "IS NULL"]], ["or", [["a2", "s", ["v", "is not null"]]], {"s": ["v", "NULL"]}]]
     items += [["st", 0], ["st", 1], ["none"]]
     return items
 
@@ -505,7 +530,7 @@ def run_case(case, acc, count=True, classify=True):
         feats += ["form:keyword", "op:="] + _val_feats(s)
         if c.startswith("_"):
             feats.append("form:keyword-underscore-column")
-    strs = [x for x in bound if isinstance(x, str) and len(x) >= 2]
+    strs = [x for x in bound if _text_checkable(x)]
     label, v, unknown = run_built(args, kwargs, masks_list, bound, strs, case["method"], case["order"],
                                   case["via"], case["conn"], acc)
     if count:
